@@ -47,7 +47,7 @@ def mkShape (dom : Array Nat) (rel : Bool) (rule : String) : Shape :=
     size := fun p => if p = 0 then 1 else sizes.getD (p - 1) 1
     mode := fun p =>
       if rule == "quasi" then .none
-      else if rule == "ident" && rel && p % 2 == 1 then .ident
+      else if rule == "ident" && rel && p % 2 == 1 && p ≤ sizes.size then .ident
       else .red }
 
 def pointwise2 (f : Val → Val → Except String Val) (a b : Table) : Except String Table := do
